@@ -117,6 +117,7 @@ def judgeFrameLinked (r : Rec) (oneShot : Bool := false) : List (String × Strin
   let mut bad := false
   let mut nsave := 0
   let mut nfail := 0
+  let mut ndict := 0
   -- the state of the context's LZ4 stream when the first block arrives (dumped from the real context)
   let iniIdx := if oneShot then 16 else 15
   let ini := if r.args.size > iniIdx then r.bytes iniIdx else ByteArray.empty
@@ -149,6 +150,25 @@ def judgeFrameLinked (r : Rec) (oneShot : Bool := false) : List (String × Strin
       S := res.1
       nblk := nblk + 1
       ops := .block addr data.data :: ops
+    else if kind == 2 then
+      -- a prepared dictionary stream attached (after the reset of LZ4F_initStream)
+      let n := rdLE life (pc + 9) 4
+      let d := life.extract (pc + 13) (pc + 13 + n)
+      pc := pc + 13 + n
+      S := (LZ4V.Model.FastX.step (fun s b => LZ4V.Model.Fast.realHash s b) S (.attach addr d.data true)).1
+      ndict := ndict + 1
+      ops := .attach addr d.data :: ops
+    else if kind == 3 then
+      -- a raw dictionary loaded into the working stream
+      let n := rdLE life (pc + 9) 4
+      let d := life.extract (pc + 13) (pc + 13 + n)
+      let ret := rdLE life (pc + 13 + n) 4
+      pc := pc + 17 + n
+      let res := LZ4V.Model.FastX.loadDict (fun s b => LZ4V.Model.Fast.realHash s b) addr d.data false
+      if fails.isEmpty && res.2 != ret then fails := [("model_frame_bytes_differs", s!"frame with dictionary: LZ4_loadDict({n}) returned {ret}, the stream model {res.2}")]
+      S := res.1
+      ndict := ndict + 1
+      ops := .load addr d.data :: ops
     else
       let k := rdLE life (pc + 9) 4
       pc := pc + 17
@@ -159,12 +179,14 @@ def judgeFrameLinked (r : Rec) (oneShot : Bool := false) : List (String × Strin
   let sched := ops.reverse
   if LZ4V.Model.FrameLinked.contentOf sched != input.toList then
     return ([("model_frame_bytes_differs", s!"linked frame: the blocks handed to the LZ4 stream do not spell out the input ({(LZ4V.Model.FrameLinked.contentOf sched).length} vs {input.size} bytes)")], [])
-  let f := LZ4V.Model.FrameLinked.frameFrom LZ4V.Spec.FrameL.xxhEnv (fun s b => LZ4V.Model.Fast.realHash s b) p S0 sched
+  let indep := r.nat 2 == 1 && !oneShot
+  let f := if indep then LZ4V.Model.FrameLinked.frameFromI LZ4V.Spec.FrameL.xxhEnv (fun s b => LZ4V.Model.Fast.realHash s b) p S0 sched
+           else LZ4V.Model.FrameLinked.frameFrom LZ4V.Spec.FrameL.xxhEnv (fun s b => LZ4V.Model.Fast.realHash s b) p S0 sched
   if fails.isEmpty && f != frame.toList then
     let d := (List.range (min f.length frame.size)).find? (fun i => f.getD i 0 != frame.get! i)
     fails := [("model_frame_bytes_differs", s!"linked frame: model {f.length} bytes, real {frame.size} bytes, first difference at {d} (bsid={p.bsid} level={p.level} bcrc={p.blockChecksum} ccrc={p.contentChecksum} csize={p.contentSize} autoFlush={p.autoFlush} blocks={nblk} saves={nsave})")]
   return (fails, ["framelinked.same", if nsave > 0 then "framelinked.saveDict" else "framelinked.nosave", if nfail > 0 then "framelinked.raw_blocks" else "framelinked.noraw",
-                  if nblk ≥ 2 then "framelinked.blocks.many" else "framelinked.blocks.le1",
+                  if nblk ≥ 2 then "framelinked.blocks.many" else "framelinked.blocks.le1", if ndict > 0 then (if indep then "framelinked.dictionary.independent_blocks" else "framelinked.dictionary.linked_blocks") else "framelinked.no_dictionary",
                   if S0.currentOffset > 0 then (if S0.tbl.any (fun v => v != 0) then "framelinked.reused_context_stale_table" else "framelinked.reused_context_clean_table") else "framelinked.fresh_context"])
 
 def judgeFrame (blobs : Std.HashMap Nat ByteArray) (r : Rec) : Verdict := Id.run do
